@@ -373,6 +373,9 @@ func (f *File) startSegmentIfNeeded(b Box, boxStartPos uint64) {
 	default:
 		segStart = (segIdx == 0)
 	}
+	if segIdx == 0 {
+		segStart = true // A fragment must belong to a segment, so the first one always starts a segment
+	}
 	if segStart {
 		f.isFragmented = true
 		ms := MediaSegment{
